@@ -489,6 +489,7 @@ PROPS = {
     "C16": dict(module="TB.Props.C16", theorems=["C16_empty", "C16_validate", "C16_piece_total_partial"], clauses=["c16-", "c03-"],
                 worlds=lambda t, s: [W.gen_world_many_segments(Rng(s, "c16-segs", i), n) for i, n in enumerate([3000, 30000] if t == "quick" else [3000, 30000, 60000])]
                                     + [W.gen_world_short_match(Rng(s, "c16-short", i)) for i in range(6)]
+                                    + [W.gen_world_link_length_missing(Rng(s, "c16-lnk", i)) for i in range(8 if t == "quick" else 80)]
                                     + [W.gen_world_sparse_candidate(Rng(s, "c16-sparse", i)) for i in range(6)]
                                     + [with_threads(W.gen_world_c16(Rng(s, "c16", i), i), [1, 1, 0, 2, 2**64 - 1][(i // 15) % 5]) for i in range(400 if t == "quick" else 8000)],
                 runner=lambda ws: run_with_cli(ws, 66 if len(ws) <= 1000 else 660), with_bin=True),
